@@ -47,6 +47,11 @@ LEVELS = {
         "note": "trusted: yaml.v3 scanner/parser; the byte-level quantifier is covered by testing only (stated as partial)",
         "technique": "Coq proof: totality with explicit fuel bound, completeness and warning-count theorems by induction; differential correspondence incl. malformed stream",
     },
+    "C10": {
+        "text": "Coq theorem: the concrete loop of interpolateEnvBlock (Range over the tombstoned slot slice with in-place Replace, Model/OMap.v) refines the list-level top-to-bottom fold for every map satisfying the representation invariant, every expansion function, every caller environment and both flag values, including the error verdict; corollaries under the environment laws (name equality through a normalisation): write-back, runtime precedence keeps the caller's value through the whole block, first definition wins for absent names, block records the pipeline's expansion, names defined afterwards; the laws are shown satisfiable by the two environments used in the correspondence. Tied to pipeline.go by correspondence through (*Pipeline).Interpolate and an independent list-level Go reference using the real interpolate library.",
+        "note": "trusted: interpolate library as an abstract expansion function; harness-side InterpolationEnv",
+        "technique": "Coq proof: refinement of the concrete loop to a list fold (loop invariant over slots) + algebraic corollaries under environment laws; differential correspondence",
+    },
 }
 
 REASONS_PENDING = "check not built yet in this revision (work in progress; see DESIGN.md §10 build order)"
